@@ -146,3 +146,37 @@ Lemma with_form_example :
   lock_ok reinit_del_all = false /\ data_ok CGlobal reinit_del_all = false /\
   lock_gen (evs_of (run AllFaults reinit_del_all [])) 0 = 1.
 Proof. vm_compute. repeat split. Qed.
+
+(* ids must come from the counter, never from the size of the graph: the disjoint add_blank_node_to_graph rewritten
+   to use len(nodes)+1 is rejected by the counter discipline (witness: its only fault-free path), and on the
+   history "import 2 nodes; a caller deletes node 1; create a node" it hands out id 2 again (duplicate live key =
+   the existing node is overwritten), where the regenerated method hands out 3 *)
+Definition len_blank : stmt :=
+  SSeq (SAcq 1) (SSeq (STry 2 (SSeq (SAct 3 (XBaseLen CArg) FDecl) (SSeq (SAct 4 (XSetCtrBase1 CArg) FWeak) (SAct 5 (XInsBase CArg) FDecl)))
+                 (Some 6) (SRaise 7) (SRel 8)) (SReturn 9 XRetBase FNever)).
+Definition imp2 : call :=
+  mkCall (lookup_m disjoint_methods "add_graph") 1 2
+         [false;false;false; true;false;false;false; true;false;false;false; false; false;false].
+Definition rm1 : call := mkCall (SAct 0 (XRemove CArg) FNever) 1 1 [].
+Lemma id_from_size_example :
+  lock_ok len_blank = true /\ data_ok CArg len_blank = false /\
+  find_bad (dataA CArg) DeclFaults 0 len_blank 8 2 = Some [] /\
+  (let S := run_sched (init [flatten DeclFaults [imp2; rm1; mkCall len_blank 1 0 []]]) (repeat 0%nat 60) in
+   map nkey (nodes (sh S)) = [(1, 2); (1, 2)] /\ map (fun t => rets (snd t)) (thr S) = [[2]]) /\
+  (let S := run_sched (init [flatten DeclFaults [imp2; rm1; mkCall (lookup_m disjoint_methods "add_blank_node_to_graph") 1 0 []]]) (repeat 0%nat 60) in
+   map nkey (nodes (sh S)) = [(1, 3); (1, 2)] /\ map (fun t => rets (snd t)) (thr S) = [[3]]).
+Proof. vm_compute. repeat split. Qed.
+
+(* acquire(timeout=..): ignoring the result is rejected (on the timed-out path the critical section runs without
+   the lock and the finally releases a lock the caller does not hold); checking it (`if not ..: raise`) is fine *)
+Definition acq_ignored : stmt :=
+  SSeq (SAcqT 1 SSkip) (STry 2 (SAct 3 (XInsCtr CGlobal) FDecl) None SSkip (SRel 4)).
+Definition acq_checked : stmt :=
+  SSeq (SAcqT 1 (SRaise 2))
+       (STry 3 (SSeq (SAct 4 (XInsCtr CGlobal) FDecl) (SAct 5 (XBump CGlobal AOne) FWeak)) None SSkip (SRel 6)).
+Lemma acquire_timeout_example :
+  lock_ok acq_ignored = false /\ find_bad lockA AllFaults 0 acq_ignored 6 2 = Some [true] /\
+  data_ok CGlobal acq_ignored = false /\
+  lock_ok acq_checked = true /\ data_ok CGlobal acq_checked = true /\
+  out_of (run AllFaults acq_checked [true]) = ORaise /\ count_acq (evs_of (run AllFaults acq_checked [true])) = 0%nat.
+Proof. vm_compute. repeat split. Qed.
